@@ -400,6 +400,17 @@ func damageCase(dir, cid string, base string, rows []map[string]string, defects 
 			}
 		}
 		res += " " + strings.ReplaceAll(execQuery(ix, &updog.Query{Expr: &updog.ExprEqual{Column: c0, Value: v0}}), " ", "_")
+		// queries the library rejects (unknown group-by column, unknown column, no expression):
+		// whatever they took must have been given back before Close
+		for _, fq := range []*updog.Query{
+			{Expr: &updog.ExprEqual{Column: c0, Value: v0}, GroupBy: []string{"no-such-column"}},
+			{Expr: &updog.ExprEqual{Column: "no-such-column", Value: "x"}},
+			{Expr: &updog.ExprAnd{Exprs: []updog.Expression{&updog.ExprEqual{Column: c0, Value: v0}, &updog.ExprNot{Expr: &updog.ExprEqual{Column: "no-such-column", Value: "x"}}}}, GroupBy: []string{c0}},
+			{},
+		} {
+			fq := fq
+			withTimeout(10*time.Second, func() string { return execQuery(ix, fq) })
+		}
 		// Close may be called more than once: four times, under a watchdog
 		closed := withTimeout(20*time.Second, func() string {
 			var cerr2 error
